@@ -28,7 +28,7 @@ def m(name, file, old, new, props, count=1):
 m("c01-duration-swapped", "src/codec.rs",
   "(secs, nanos).encode()", "(nanos, secs).encode()", ["C01"])
 m("c01-optionbool-swapped-both", "src/codec.rs",
-  "OptionBool(Some(true)) => 1u8,\n\t\t\tOptionBool(Some(false)) => 2u8,", "OptionBool(Some(true)) => 2u8,\n\t\t\tOptionBool(Some(false)) => 1u8,", ["C01", "C03"])
+  "OptionBool(Some(true)) => 1u8,\n\t\t\tOptionBool(Some(false)) => 2u8,", "OptionBool(Some(true)) => 2u8,\n\t\t\tOptionBool(Some(false)) => 1u8,", ["C01", "C02"])
 m("c01-u128-bigendian-scalar", "src/codec.rs",
   "impl_endians!(u16; U16, u32; U32, u64; U64, u128; U128, i16; I16, i32; I32, i64; I64, i128; I128);",
   "impl_endians!(u16; U16, u32; U32, u64; U64, i16; I16, i32; I32, i64; I64, i128; I128);\nimpl EncodeLike for u128 {}\nimpl Encode for u128 {\n\tconst TYPE_INFO: TypeInfo = TypeInfo::U128;\n\tfn size_hint(&self) -> usize { 16 }\n\tfn using_encoded<R, F: FnOnce(&[u8]) -> R>(&self, f: F) -> R { let buf = self.to_be_bytes(); f(&buf[..]) }\n}\nimpl Decode for u128 {\n\tconst TYPE_INFO: TypeInfo = TypeInfo::U128;\n\tfn decode<I: Input>(input: &mut I) -> Result<Self, Error> { let mut buf = [0u8; 16]; input.read(&mut buf)?; Ok(u128::from_be_bytes(buf)) }\n\tfn encoded_fixed_size() -> Option<usize> { Some(16) }\n}\nimpl DecodeWithMemTracking for u128 {}",
